@@ -2,7 +2,8 @@ PROP = {
     'level': 'proof',
     'coq': ['Properties/C19.v'],
     'coq_gen': ['Properties/C19_gen.v'],
-    'rule': ("eight case kinds from one PRNG. c19.check: real Server.CheckProof with s.CheckPayload/StaticDomain and a scripted "
+    'rule': ("nine case kinds from one PRNG. Server configuration is part of the quantifier: secrets of 0/1/31/32/63/64/65/100/1000 "
+             "bytes (and short random ones) in every kind, lifetimes incl. negative/overflowing, caller-written domain policies.  c19.check: real Server.CheckProof with s.CheckPayload/StaticDomain and a scripted "
              "fake abi.Executor vs the extracted model (Gallina SHA-256; oracle columns computed with crypto/hmac, encoding/base64, "
              "tongo boc/tlb, crypto/ed25519): honest proofs by the real CreateSignedProof for all 11 constructible wallet versions "
              "V1R1..V5R1 x key from get-method / from state-init; every single-field substitution (address other/one digit/workchain, "
@@ -23,7 +24,13 @@ PROP = {
              "state-init between two honest logins, key first from the get-method then a foreign state-init when the get-method fails, "
              "replays of the same proof, one payload reused by two wallets, expired / foreign-secret payloads and a changed timestamp "
              "before and after a good call, random histories over logins and substitutions; oracle: a call that must be rejected is "
-             "rejected whatever came before, honest calls are accepted with their own key. c19.msg (createMessage bytes), c19.conv "
+             "rejected whatever came before, honest calls are accepted with their own key. c19.genpayload: the real GeneratePayload "
+             "of a server per secret length: output well formed, its tag equals HMAC-SHA256 under the FULL secret computed by the "
+             "harness with crypto/hmac (independent of the Server object), accepted by a second Server with the same secret, and "
+             "accepted by a Server with another secret (sibling differing in one byte incl. beyond byte 64, appended byte, 64-byte "
+             "truncation, same 64-byte prefix + other tail, one byte shorter, random, zero-padded) exactly when RFC 2104 makes the "
+             "two keys the same key (<= 64 bytes and zero-padded). c19.payload / c19.check also present payloads made under sibling, "
+             "truncated and zero-padded secrets; c19.check with checkDomain policies allow/deny/error/suffix and both lifetimes set. c19.msg (createMessage bytes), c19.conv "
              "(convertTonProofMessage + ParseAccountID), c19.payload, c19.pubkey (getWalletPubKey), c19.stateinit "
              "(compareStateInitWithAddress + ParseStateInit) exercise the parts alone. Oracles on the implementation: honest => accepted "
              "with the wallet key; every substitution => rejected; never a panic; accepted only with the key in the data; lifetime "
@@ -36,7 +43,11 @@ PROP = {
                     "rejection corollaries under an ideal signature; lifetime boundary to the nanosecond; C19_history_independent: the "
                     "answer to a call within any history on one Server is the answer to the call alone (the model has no state; the "
                     "content is the c19.hist correspondence), and a cache of verified state-inits not keyed by the address is refuted "
-                    "by a 2-call history (C19_addressless_cache_refuted). coq/Properties/C19_gen.v "
+                    "by a 2-call history (C19_addressless_cache_refuted); C19_check_generated_payload: CheckPayload of a server with "
+                    "secret s2 on the payload GeneratePayload made under s1 succeeds exactly when the 16-byte MACs under the full keys "
+                    "s1 and s2 agree and it has not expired (hence C19_payload_of_other_secret_rejected, C19_generated_payload_accepted "
+                    "for secrets of any length), and keying the MAC with the secret cut/padded to the 64-byte block is refuted "
+                    "(C19_block_key_design_refuted). coq/Properties/C19_gen.v "
                     "re-checks on the constants translated from today's source: prefixes, default lifetimes, get_public_key method id "
                     "(= crc16 of the name | 0x10000), knownHashes range, the switch of ParseStateInit (key offsets 32/64/113/65 derived "
                     "from the wallet data structs, default clause is an error), and recomputes all 12 code hashes from the code BOCs "
@@ -45,6 +56,9 @@ PROP = {
                     "are explicit hypotheses of the rejection corollaries only",
                     "DeserializeBocBase64 + cell hashes (C07/C02) and dictionary decodability (C05) are parameters; totality assumes "
                     "the BOC parser does not panic (C07) and HMAC output >= 16 bytes",
+                    "HMAC is a parameter keyed with the secret exactly as configured; that keys of at most 64 bytes and their zero-padded "
+                    "forms are the same HMAC key (RFC 2104) is a fact about HMAC, reflected in the harness oracle, not a defect",
+                    "lifetimes above 9223372036 s overflow time.Duration (model and code agree; configuration misuse)",
                     "JSON decoding of Proof, context cancellation and the real executor are not modelled; the clock is a parameter",
                     "ParseAccountID's base64 fallback is modelled as an error: convertTonProofMessage has already required a ':' "
                     "which base64url never accepts"],
